@@ -521,6 +521,103 @@ def run_chol(ctx, cuqi, thorough):
     return [stream_D1(), stream_D2()]
 
 
+def run_apply(ctx, cuqi, thorough):
+    """applying an operator with `@` to the same NUMBERS stored in another floating dtype / layout (float32, big-endian float32,
+    strided float32, float32 batches, longdouble) gives the documented stencil applied to those numbers: the product is judged
+    relative to the largest term sum_j |D_ij||x_j| at double-precision level (1e-9 leaves 7 digits of slack over float64 rounding
+    and rejects a single-precision product, whose error is ~1e-7 of the largest term), and a finite documented value must not
+    come back as inf/nan (differences of large single-precision values overflow when the product is formed in float32).
+    Reference: the numpy matrix written from the documented stencil (`doc_operator`) divided by dx^order, in float64."""
+    from cuqi.operator import FirstOrderFiniteDifference, SecondOrderFiniteDifference, PrecisionFiniteDifference
+    rng = np.random.RandomState(ctx.seed + 2055)
+    cov = {"dtype": {}, "vector_class": {}, "operator": {}}
+    confs = []
+    for bc in BCS:
+        for n in (4, 7):
+            for dx in (None, 0.3):
+                confs.append(("first", 1, bc, n, 1, dx))
+                if bc in ("zero", "periodic", "neumann"):
+                    confs.append(("second", 2, bc, n, 1, dx))
+        confs.append(("first", 1, bc, 3, 2, None))
+        if bc in ("zero", "periodic", "neumann"):
+            confs.append(("second", 2, bc, 3, 2, None))
+            for order in (0, 1, 2):
+                confs.append(("precision", order, bc, 5, 1, None))
+            confs.append(("precision", 1, bc, 3, 2, None))
+    if not thorough:
+        idx = rng.permutation(len(confs))[:36]
+        confs = [confs[i] for i in sorted(idx)]
+    dtypes = {"float32": lambda v: v.astype(np.float32), "float32-be": lambda v: v.astype(">f4"),
+              "float32-strided": lambda v: np.repeat(v.astype(np.float32), 2)[::2], "longdouble": lambda v: v.astype(np.longdouble),
+              "float64": lambda v: v.astype(np.float64)}
+    for oname, order, bc, n, pd, dx in confs:
+        nn = n if pd == 1 else (n, n)
+        dim = n if pd == 1 else n * n
+        try:
+            with quiet():
+                op = (FirstOrderFiniteDifference(nn, bc, dx=dx) if oname == "first" else SecondOrderFiniteDifference(nn, bc, dx=dx)
+                      if oname == "second" else PrecisionFiniteDifference(nn, bc_type=bc, order=order))
+        except Exception:
+            continue
+        ref_D = doc_operator(order, "none" if order == 0 else bc, n, pd)
+        if ref_D is None:
+            continue
+        if oname == "precision":
+            ref_D = ref_D.T @ ref_D
+        elif dx is not None:
+            ref_D = ref_D / (dx ** order)
+        if ref_D.shape[0] == 0:
+            continue
+        t = np.arange(dim, dtype=float)
+        vecs = {"smooth": 1.0 + 1e-3 * t ** 2, "random": rng.standard_normal(dim), "large-alternating": 3e38 * (-1.0) ** t,
+                "large": 1e38 * (1.0 + 0.5 * np.sin(t)), "tiny": 1e-30 * rng.standard_normal(dim)}
+        for vname, v in vecs.items():
+            for dn, conv in dtypes.items():
+                x = conv(v)
+                x64 = np.asarray(x, dtype=np.float64)          # exactly the numbers stored in x (longdouble: rounded to double)
+                if dn == "longdouble":
+                    x = conv(x64)
+                for how in ("matmul", "batch"):
+                    if how == "batch" and (dn not in ("float32", "float64") or vname == "tiny"):
+                        continue
+                    arg = x if how == "matmul" else np.stack([x, 2 * x], axis=1)
+                    a64 = x64 if how == "matmul" else np.stack([x64, 2 * np.asarray(x, np.float64)], axis=1)
+                    if how == "batch" and not np.isfinite(np.asarray(arg, np.float64)).all():
+                        continue
+                    with np.errstate(all="ignore"):
+                        ref = ref_D @ a64
+                        big = np.abs(ref_D) @ np.abs(a64)
+                    if not np.isfinite(big).all():
+                        continue
+                    desc = {"operator": oname, "order": order, "bc": bc, "n": n, "dim": pd, "dx": dx, "dtype": dn, "vector": vname,
+                            "how": how, "x": [float(u) for u in x64[:8]]}
+                    ctx.case("operator-apply-dtype", {k: desc[k] for k in ("operator", "order", "bc", "dim", "dx", "dtype", "vector", "how")})
+                    cov["dtype"][dn] = cov["dtype"].get(dn, 0) + 1
+                    cov["vector_class"][vname] = cov["vector_class"].get(vname, 0) + 1
+                    cov["operator"][oname] = cov["operator"].get(oname, 0) + 1
+                    key = f"operator:{oname}:{pd}D:{bc}:apply:{dn}:{vname}"
+                    try:
+                        with quiet(), np.errstate(all="ignore"):
+                            got = np.asarray(op @ arg, dtype=np.float64)
+                    except Exception as e:
+                        ctx.note(f"operator @ {dn} refused: {type(e).__name__}")
+                        continue
+                    if got.shape != ref.shape:
+                        ctx.fail(key, desc, list(ref.shape), list(got.shape), "operator @ vector has the wrong shape")
+                        continue
+                    if not np.isfinite(got).all():
+                        ctx.fail(key, desc, [float(u) for u in np.ravel(ref)[:8]], [float(u) for u in np.ravel(got)[:8]],
+                                 "the documented stencil applied to these numbers is finite, the operator returns inf/nan (product formed in a narrower precision)")
+                        continue
+                    err = np.abs(got - ref)
+                    if (err > 1e-9 * big + 1e-300).any():
+                        i = int(np.argmax(err - 1e-9 * big))
+                        ctx.fail(key, desc, [float(u) for u in np.ravel(ref)[:8]], [float(u) for u in np.ravel(got)[:8]],
+                                 f"operator @ vector is not the documented stencil applied to the same numbers (error {float(np.ravel(err)[i]):.3e}, "
+                                 f"largest term {float(np.ravel(big)[i]):.3e}: relative {float(np.ravel(err)[i] / max(np.ravel(big)[i], 1e-300)):.1e}, double precision gives < 1e-15)")
+    ctx.extra_cov["c20_apply_dtype"] = cov
+
+
 def run_ext(ctx, cuqi, thorough):
     """run all session-3 streams in lock-step rounds: every round sends the pending driver lines of all streams in ONE
     `drive` call (each call re-checks the lake build under a lock shared with other builders, so calls are the cost)."""
@@ -529,6 +626,7 @@ def run_ext(ctx, cuqi, thorough):
     ctx.assumptions += ["log-densities / gradients: model's exact form evaluated in float vs implementation at 1e-10",
                         "Cholesky factors: 1e-12 (zero boundary) / 1e-8 (sqrt(eps)-regularised periodic, Neumann) relative to the largest entry",
                         "constructor matrices: exact, 1e-14 where a float dx divides (scipy multiplies by 1/dx)"]
+    run_apply(ctx, cuqi, thorough)
     gens = run_eval(ctx, cuqi, thorough) + run_chol(ctx, cuqi, thorough)
     pending = []
     for g in gens:
